@@ -450,6 +450,15 @@ structure FOut (α β : Type) where
   f : FuseW
   w : World
 
+/-- `write(fd, r)`: one record on the descriptor — also when `r` is empty (the harness's descriptor is
+    a SOCK_SEQPACKET socket, which queues a zero-length record for `write`) -/
+def World.fdWrite (w : World) (r : Bytes) : World := { w with fd := w.fd ++ [r] }
+
+/-- `writev(fd, bufs)`: one record, except that the kernel returns 0 at once and queues nothing
+    when the total length is zero -/
+def World.fdWritev (w : World) (r : Bytes) : World :=
+  if r.isEmpty then w else { w with fd := w.fd ++ [r] }
+
 def FuseW.new (region base cap : Nat) : FuseW :=
   { region := region, base := base, len := 0, cap := cap, buffered := false }
 
@@ -494,7 +503,7 @@ def FuseW.write (f : FuseW) (w : World) (data : Bytes) : FOut Nat Unit :=
     else
       -- do_write(fd, data) then account_written(x): the length grows, the buffer is not filled
       { res := .ok data.length, aux := (), f := { f with len := f.len + data.length },
-        w := { w with fd := w.fd ++ [data] } }
+        w := w.fdWrite data }
 
 def FuseW.extendAll (f : FuseW) (w : World) : List Bytes → Nat → Except IoErr (FuseW × World × Nat)
   | [], count => .ok (f, w, count)
@@ -516,7 +525,7 @@ def FuseW.writeVectored (f : FuseW) (w : World) (bufs : List Bytes) : FOut Nat U
     else
       let rec_ := bufs.foldl (· ++ ·) []
       { res := .ok rec_.length, aux := (), f := { f with len := f.len + rec_.length },
-        w := { w with fd := w.fd ++ [rec_] } }
+        w := w.fdWritev rec_ }
 
 /-- `write_from` / `write_from_at`: one buffer `[buf.ptr + len, count)` handed to the source -/
 def FuseW.writeFrom (f : FuseW) (w : World) (src : Script) (count : Nat) (at_ : Option Nat) : FOut Nat Script :=
@@ -531,7 +540,7 @@ def FuseW.writeFrom (f : FuseW) (w : World) (src : Script) (count : Nat) (at_ : 
       else
         -- do_write(fd, &self.buf[..cnt])
         let rec_ := readSeg w1.mem { region := f.region, off := f.base, len := cnt }
-        { res := .ok cnt, aux := s1, f := f1, w := { w1 with fd := w1.fd ++ [rec_] } }
+        { res := .ok cnt, aux := s1, f := f1, w := w1.fdWrite rec_ }
 
 def FuseW.writeAllLoop : Nat → FuseW → World → Script → Nat → FOut Unit Script
   | 0, f, w, src, _ => { res := .error .fuel, aux := src, f := f, w := w }
@@ -558,9 +567,9 @@ def FuseW.commit (f : FuseW) (w : World) (other : Option FuseW) : Except IoErr N
     let s := f.slice w.mem
     match s.length, o.length with
     | 0, 0 => (.ok 0, w)
-    | 0, _ => (.ok o.length, { w with fd := w.fd ++ [o] })
-    | _, 0 => (.ok s.length, { w with fd := w.fd ++ [s] })
-    | _, _ => (.ok (s.length + o.length), { w with fd := w.fd ++ [s ++ o] })
+    | 0, _ => (.ok o.length, w.fdWrite o)
+    | _, 0 => (.ok s.length, w.fdWrite s)
+    | _, _ => (.ok (s.length + o.length), w.fdWritev (s ++ o))
 
 /-! ### Adapter: `Bytes<usize> for FileVolatileSlice` over a plain byte list of length `len`
     (delegating to `VolatileSlice`, vm-memory 0.17) -/
